@@ -115,3 +115,5 @@ func verifReach(m string)          { VerifReach(m) }
 func verifObserve(v int64)         { VerifObserve(v) }
 func verifNote(m string)           { VerifNote(m) }
 func verifTier() int               { return VerifTier() }
+
+func VerifSetFile(name string, content []byte, length int, mode int) {}
